@@ -3,10 +3,13 @@
 Tie T: T6 (get_tile_array bounds/padding), T7a (tile counts of tile_pixel_matrix: int(np.ceil(n / t))), T7b (tile counts of
 compute_tile_positions_per_frame: (n - 1) // t + 1), T7c (offsets of compute_plane_position_tiled_full), T7d (the two loop
 bodies, the initial values and the range arguments of are_plane_positions_tiled_full), T7e (z origin of a focal plane in
-iter_tiled_full_frame_data; its loop nest, channel lists, call and yield are pinned textually), regenerated on every run.
+iter_tiled_full_frame_data; its loop nest, channel lists, call and yield are pinned textually), T7f (the islice by which
+_get_spatial_information takes the position of frame k from that iteration), regenerated on every run.
 Tie C (L0, public functions): the hand-written enumerations around them (Model/Tiling.lean) against
 spatial.tile_pixel_matrix, spatial.compute_tile_positions_per_frame, spatial.get_tile_array,
-spatial.iter_tiled_full_frame_data, utils.compute_plane_position_tiled_full, utils.compute_plane_position_slide_per_frame,
+spatial.iter_tiled_full_frame_data, PixelToReferenceTransformer.for_image(image, frame_number=k) / for_total_pixel_matrix=True
+(the per-frame transformers behind which _get_spatial_information sits), utils.compute_plane_position_tiled_full,
+utils.compute_plane_position_slide_per_frame,
 utils.are_plane_positions_tiled_full -- EXHAUSTIVELY for all matrix and tile sizes 1..24 per dimension in the thorough tier
 (1..10 in quick).
 Oracle (independent of the model): the row-major grid written down directly (tiles start at 1 + k * tile size), painted
@@ -23,7 +26,7 @@ from types import SimpleNamespace
 import numpy as np
 
 PROP = 'C12'
-TARGETS = ['T6', 'T7a', 'T7b', 'T7c', 'T7d', 'T7e']
+TARGETS = ['T6', 'T7a', 'T7b', 'T7c', 'T7d', 'T7e', 'T7f']
 LEAN_MODULES = ['HdVerif.Props.C12']
 MODEL_MODULES = ['HdVerif.Model.TilingJson']
 NAMESPACE = 'HdVerif.C12'
@@ -334,7 +337,12 @@ def _datasets(ctx, reqs, pending):
         planes = r.choice([1, 1, 2, 3])
         sbs = r.choice([None, 0.5, 1.5, 2.0])
         kind = r.choice(['wsi', 'wsi', 'seg', 'labelmap'])
+        # z offset of the total pixel matrix origin: absent, explicitly zero, or not zero
+        oz = r.choice([None, None, 0.0, 2.5, -1.25])
+        org = (org[0], org[1], 0.0 if oz is None else oz)
         ds, _ = slide_image(R, C, tr, tc, tiled_full=True, origin=org, pixel_spacing=sp, orientation=ori)
+        if oz is not None:
+            ds.TotalPixelMatrixOriginSequence[0].ZOffsetInSlideCoordinateSystem = oz
         if sbs is not None:
             ds.SharedFunctionalGroupsSequence[0].PixelMeasuresSequence[0].SpacingBetweenSlices = sbs
         ds.TotalPixelMatrixFocalPlanes = planes
@@ -363,7 +371,7 @@ def _datasets(ctx, reqs, pending):
         if ds != before:
             ctx.fail({'dataset_idx': idx}, 'iter_tiled_full_frame_data modified the dataset', site='iter_tiled_full_frame_data')
         ctx.case(helper='iter_tiled_full_frame_data', kind=kind, channels=len(channels), planes=planes, exact_geometry=exact,
-                 spacing_between_slices=str(sbs), anisotropic=(sp[0] != sp[1]), square_tile=(tr == tc),
+                 spacing_between_slices=str(sbs), anisotropic=(sp[0] != sp[1]), square_tile=(tr == tc), origin_z=str(oz),
                  nontrivial_key=('iter', idx) if len(g) > 1 else None)
         if st == 'err':
             ctx.fail(case, {'helper': 'iter_tiled_full_frame_data', 'error': val}, site='iter_tiled_full_frame_data')
@@ -376,15 +384,64 @@ def _datasets(ctx, reqs, pending):
                             'frames': len(got), 'expected_frames': len(want), 'first': got[:8]}, site='iter_tiled_full_frame_data')
         else:
             for x in val:
-                if not close(x[4:], affine(org, ori, sp, x[2] - 1, x[3] - 1, (x[1] - 1) * s), exact):
+                if not close(x[4:], affine(org, ori, sp, x[2] - 1, x[3] - 1, org[2] + (x[1] - 1) * s), exact):
                     ctx.fail(case, {'helper': 'iter_tiled_full_frame_data', 'what': 'position is not the transform of the offset', 'item': list(x)},
                              site='iter_tiled_full_frame_data')
                     break
         if exact:
             reqs.append(('iterTiledFull', {'channels': channels, 'planes': planes, 'tr': tr, 'tc': tc, 'R': R, 'C': C,
-                                           'geo': geo_json(org, ori, sp), 'sbs': frac(s)}))
+                                           'geo': geo_json(org, ori, sp, org[2]), 'sbs': frac(s)}))
             pending.append((case, 'iter_tiled_full_frame_data',
                             ('ok', [[x[0], x[1], x[2], x[3]] + [frac(v) for v in x[4:]] for x in val]), 'iter'))
+        # ---- sixth description: the per-frame transformers.  PixelToReferenceTransformer.for_image(ds, frame_number=k) must put
+        #      pixel (0, 0) of frame k where every other helper puts tile k, with the matrix' own axes and spacings
+        if st == 'ok' and got == want:
+            nfr = len(val)
+            ks = list(range(1, nfr + 1)) if nfr <= 40 else sorted(set([1, 2, nfr - 1, nfr] + [r.randint(1, nfr) for _ in range(30)]))
+            for k_ in ks + [0, nfr + 1, -1]:
+                stT, T = _fetch(spatial.PixelToReferenceTransformer.for_image, ds, frame_number=k_)
+                ctx.case(helper='PixelToReferenceTransformer.for_image(frame_number)', frame_valid=(1 <= k_ <= nfr), kind=kind,
+                         square_grid=(-(-R // tr) == -(-C // tc)), nontrivial_key=('frameT', idx, k_) if 1 < k_ <= nfr else None)
+                cT = {**case, 'frame_number': k_}
+                if not (1 <= k_ <= nfr):
+                    if stT == 'ok':
+                        ctx.fail(cT, {'helper': 'for_image(frame_number)', 'what': 'frame number outside the image accepted'},
+                                 site='_get_spatial_information')
+                    implT = ('err', T) if stT == 'err' else ('ok', None)
+                elif stT == 'err':
+                    ctx.fail(cT, {'helper': 'for_image(frame_number)', 'error': T}, site='_get_spatial_information')
+                    implT = ('err', T)
+                else:
+                    pts = np.asarray(T(np.array([[0, 0], [1, 0], [0, 1]])), dtype=float)
+                    x = val[k_ - 1]
+                    wantp = affine(org, ori, sp, x[2] - 1, x[3] - 1, org[2] + (x[1] - 1) * s)
+                    stepc = (np.array(affine(org, ori, sp, 1, 0)) - np.array(affine(org, ori, sp, 0, 0))).tolist()
+                    stepr = (np.array(affine(org, ori, sp, 0, 1)) - np.array(affine(org, ori, sp, 0, 0))).tolist()
+                    if not close(pts[0], wantp, exact) or not close(pts[0], x[4:], False) or \
+                            not close(pts[1] - pts[0], stepc, False) or not close(pts[2] - pts[0], stepr, False):
+                        ctx.fail(cT, {'helper': 'for_image(frame_number)', 'what': 'the per-frame transformer does not put the frame on its tile',
+                                      'origin_of_frame': pts[0].tolist(), 'tile_position_from_iter': list(x[4:]), 'want': wantp,
+                                      'tile': [x[2], x[3]], 'grid': [-(-R // tr), -(-C // tc)]}, site='_get_spatial_information')
+                    implT = ('ok', [frac(v) for v in pts[0]])
+                if exact:
+                    reqs.append(('framePosition', {'channels': channels, 'planes': planes, 'tr': tr, 'tc': tc, 'R': R, 'C': C,
+                                                   'geo': geo_json(org, ori, sp, org[2]), 'sbs': frac(s), 'k': k_}))
+                    pending.append((cT, 'for_image(frame_number)', implT, 'ppt'))
+            # the transformer of the whole matrix maps every tile's offset to the tile's position
+            stT, T = _fetch(spatial.PixelToReferenceTransformer.for_image, ds, for_total_pixel_matrix=True)
+            ctx.case(helper='PixelToReferenceTransformer.for_image(for_total_pixel_matrix)')
+            if stT == 'err':
+                ctx.fail(case, {'helper': 'for_image(for_total_pixel_matrix)', 'error': T}, site='_get_spatial_information')
+            else:
+                first_plane = [x for x in val if x[1] == 1][:len(g)]
+                pts = np.asarray(T(np.array([[x[2] - 1, x[3] - 1] for x in first_plane])), dtype=float)
+                for x, pt in zip(first_plane, pts):
+                    if not close(pt, x[4:], False):
+                        ctx.fail(case, {'helper': 'for_image(for_total_pixel_matrix)',
+                                        'what': 'a tile position is not the total-pixel-matrix transform of its pixel offset',
+                                        'offset': [x[2], x[3]], 'position': list(x[4:]), 'transform_of_offset': pt.tolist()},
+                                 site='_get_spatial_information')
+                        break
         # ---- compute_plane_position_slide_per_frame: same data wrapped
         st2, pps = _fetch(utils.compute_plane_position_slide_per_frame, ds)
         ctx.case(helper='compute_plane_position_slide_per_frame')
@@ -443,7 +500,8 @@ def _datasets(ctx, reqs, pending):
                 # agreement with the per-frame list (same channel-independent tile)
                 if ri <= nR and ci <= nC and st == 'ok' and got == want:
                     x = val[(si - 1 if use3d else 0) * len(g) + (ri - 1) * nC + (ci - 1)]
-                    if (x[2], x[3]) != gotp[:2] or not close(x[4:], gotp[2:], False):
+                    # the function is given the x and y offsets of the origin only: its z is relative to an origin at z = 0
+                    if (x[2], x[3]) != gotp[:2] or not close([x[4], x[5], x[6] - org[2]], gotp[2:], False):
                         ctx.fail(c4, {'helper': 'compute_plane_position_tiled_full', 'what': 'differs from iter_tiled_full_frame_data',
                                       'got': list(gotp), 'iter': list(x)}, site='compute_plane_position_tiled_full')
                 impl = ('ok', [gotp[0], gotp[1]] + [frac(v) for v in gotp[2:]])
